@@ -250,6 +250,8 @@ class Templater:
                 break
         for rx, ph in self.res:
             p = rx.sub(ph, p)
+        # process ids in temporary file names are not part of a label
+        p = re.sub(r"\.\d+\.tmp$", ".<pid>.tmp", p)
         return p
 
 
